@@ -270,20 +270,7 @@ Theorem C01_frames_history_independent : forall c i perm st lazy warm k,
   valid c i = true -> Permutation perm (zrange (nsrc c)) -> construct c i perm = Ok st ->
   0 <= k < zlen (s_meta st) ->
   frame_getter lazy warm st k = stored_frame false st k.
-Proof.
-  intros c i perm st lazy warm k Hv Hp Hc Hk.
-  rewrite (getter_history_independent c i perm st lazy warm k Hv Hp Hc Hk).
-  rewrite <- (getter_history_independent c i perm st lazy false k Hv Hp Hc Hk).
-  destruct lazy; [|reflexivity].
-  (* lazy reader, cold cache = eager reader, cold cache *)
-  unfold frame_getter. cbn [andb negb].
-  destruct (constructed_frames c i perm st Hv Hp Hc) as (fs & -> & Hok).
-  destruct (valid_basic c i Hv) as (_ & Hn & _).
-  cbn [s_meta] in Hk. unfold zlen in Hk. rewrite map_length in Hk.
-  destruct (native c) eqn:En.
-  - rewrite !stored_frame_correct; auto.
-  - now rewrite !stored_frame_encaps.
-Qed.
+Proof. exact frames_history_independent. Qed.
 Print Assumptions C01_frames_history_independent.
 
 (* THE PROPERTY after any history: the stacked read of all sources (by instance
